@@ -15,3 +15,6 @@ def check(ctx: Ctx) -> None:
     r_group_table_who(ctx, "R09.6")
     # "a function that is not a coroutine function is rejected": by asyncio's notion of a coroutine function, the one the documentation names
     A.r_external_predicates(ctx, "R09.7")
+    # "a closed pool rejects every request, for good": gather_and_close closes the pool on every way it returns
+    from . import close as CL
+    CL.r_close_order(ctx, "R09.8")
